@@ -330,6 +330,13 @@ included (table regenerated from the AST on every run by pv/lib_lockdisc.py). -/
 
 theorem locks_released_on_every_path : ∀ s ∈ PV.Generated.C13.lockSites, s.safe = true := by decide
 
+/-- the shutdown paths take the channel lock, the transport lock and the pipe locks (`_unlink`, the accept
+notify, `BufferedPipe.close`): the model lets the loss thread always make its next step, which needs that no caller
+waits for the send gate (or sleeps, or joins) with one of those locks held — only `Condition.wait` on a condition
+built over the very lock held, which releases it (table regenerated from the AST, helpers followed two levels) -/
+theorem no_caller_waits_with_a_teardown_lock_held :
+    ∀ s ∈ PV.Generated.C13.blockingUnderLock, s.safe = true := by decide
+
 theorem lock_table_covers_the_send_gate :
     (PV.Generated.C13.lockSites.filter fun s => s.lock == "self.clear_to_send_lock").length ≥ 4 := by decide
 
